@@ -618,7 +618,9 @@ static Token *subst(Token *tok, MacroArg *args) {
     // Handle a macro token. Macro arguments are completely macro-expanded
     // before they are substituted into a macro body.
     if (arg) {
-      Token *t = preprocess2(arg->tok);
+      // preprocess2() relinks the tokens it is given, so expand a copy;
+      // the argument itself may still be needed unexpanded by # or ##.
+      Token *t = preprocess2(add_hideset(arg->tok, NULL));
       t->at_bol = tok->at_bol;
       t->has_space = tok->has_space;
       for (; t->kind != TK_EOF; t = t->next)
